@@ -58,6 +58,60 @@ def r3_1(ctx):
     ctx.floor(n, 2, "escape templates in Style.render")
 
 
+def _segment_paths(rb):
+    """Normal form of a function that turns a stream of (text, style, is_control) segments into output pieces:
+    (iteration source expr, [text, style, control] names, [(facts dict, emitted expr text or None)], anchor node).
+    Accepted shapes: a `for t, s, c in <src>` loop whose body appends to a list (any nesting / guard clauses /
+    conditional expressions), or a list comprehension / generator expression over <src> (filters + element)."""
+    from ..astutil import inline, single_defs
+    from ..yieldpaths import Enumerator, Unsupported, canon_test
+    sd = single_defs(rb.node)
+    out = []
+    # comprehension / generator form
+    for x in walk_local(rb.node):
+        if isinstance(x, (ast.ListComp, ast.GeneratorExp)) and len(x.generators) == 1 and isinstance(x.generators[0].target, ast.Tuple) and len(x.generators[0].target.elts) == 3:
+            ge = x.generators[0]
+            names = [norm(e) for e in ge.target.elts]
+            en = Enumerator(rb.node)
+            en.defs = {k: v for k, v in en.defs.items() if k not in names}
+            base = []
+            for cond in ge.ifs:
+                base += canon_test(inline(cond, en.defs), True)
+            paths = []
+            for facts, txt in en.forks(x.elt):
+                d = dict(base)
+                d.update({e[1]: e[2] for e in facts})
+                paths.append((d, txt))
+            # the filtered-out case(s): no emission; represented by the negation of each filter separately
+            for cond in ge.ifs:
+                paths.append((dict(canon_test(inline(cond, en.defs), False)), None))
+            return ge.iter, names, paths, x
+    # loop form
+    for lp in walk_local(rb.node):
+        if isinstance(lp, ast.For) and isinstance(lp.target, ast.Tuple) and len(lp.target.elts) == 3:
+            names = [norm(e) for e in lp.target.elts]
+            en = Enumerator(rb.node)
+            en.defs = {k: v for k, v in en.defs.items() if k not in names}
+            try:
+                bodies = en.block(lp.body)
+            except Unsupported as u:
+                raise AnalysisError(f"{rb.fq}: emit loop uses a statement outside the path normal form ({u})")
+            paths = []
+            for ev, _t in bodies:
+                d = {e[1]: e[2] for e in ev if e[0] == "cond"}
+                emits = [e[1] for e in ev if e[0] == "do" and ".append(" in e[1]]
+                others = [e for e in ev if e[0] in ("yield", "yieldfrom", "return", "raise")]
+                if others:
+                    raise AnalysisError(f"{rb.fq}: emit loop body yields/returns; not the expected accumulate-and-join shape")
+                if not emits:
+                    paths.append((d, None))
+                for em in emits:
+                    c = ast.parse(em, mode="eval").body
+                    paths.append((d, norm(c.args[0]) if isinstance(c, ast.Call) and len(c.args) == 1 else em))
+            return lp.iter, names, paths, lp
+    raise AnchorVanished(f"{rb.fq}: neither an emit loop `for text, style, is_control in ...` nor a comprehension over the segments was found")
+
+
 def r3_2(ctx):
     ctx.rule("R3.2", "colour disabled => no escape sequence: every return of Style.render that can carry an escape literal is dominated by the false branch of the `color_system is None` early exit; in Console._render_buffer segment text reaches the output only through style.render(text, color_system=<the console's colour system>) or as plain text")
     f = ctx.repo.fn("style:Style.render")
@@ -83,19 +137,22 @@ def r3_2(ctx):
                   "Style.render can return escape sequences although color_system is None (the early `return text` no longer covers this path)")
     ctx.floor(guarded, 1, "escape-carrying returns in Style.render")
     rb = ctx.repo.fn("console:Console._render_buffer")
-    aliases = alias_map(rb.node)
-    appends = [c for c in walk_local(rb.node) if isinstance(c, ast.Call) and norm(expand_alias(c.func, aliases)) == "output.append"]
-    ctx.floor(len(appends), 2, "output appends in _render_buffer")
-    cs_ok = any(isinstance(n, ast.Assign) and norm(n.targets[0]) == "color_system" and norm(n.value) == "self._color_system" for n in walk_local(rb.node))
-    for a in appends:
-        arg = a.args[0]
-        where = f"{rb.module.relpath}:{a.lineno}"
-        if isinstance(arg, ast.Call) and norm(arg.func).endswith(".render"):
-            cs = kwarg(arg, "color_system")
-            ok = cs is not None and ((norm(cs) == "color_system" and cs_ok) or norm(cs) == "self._color_system")
-            ctx.check(ok, rb.fq, short(a), where, "styled text rendered with the console's own colour system", "style.render is not given the console's colour system: escapes are emitted although colour is disabled (default is truecolor)")
+    _src, (tn, sn, cn), paths, anchor = _segment_paths(rb)
+    emitting = [(d, e) for d, e in paths if e is not None]
+    ctx.floor(len(emitting), 2, "output pieces in _render_buffer")
+    where = f"{rb.module.relpath}:{anchor.lineno}"
+    for d, e in emitting:
+        v = ast.parse(e, mode="eval").body
+        if isinstance(v, ast.Call) and isinstance(v.func, ast.Attribute) and v.func.attr == "render":
+            cs = kwarg(v, "color_system") or (v.args[1] if len(v.args) > 1 else None)
+            ok = cs is not None and norm(cs) == "self._color_system" and norm(v.func.value) == sn and v.args and norm(v.args[0]) == tn
+            ctx.check(ok, rb.fq, e[:160], where, "styled text rendered with the console's own colour system", "style.render is not given the console's colour system (or not the segment's own text/style): escapes are emitted although colour is disabled (default is truecolor)")
         else:
-            ctx.check(isinstance(arg, ast.Name), rb.fq, short(a), where, "plain segment text appended as is", f"`{norm(arg)}` appended to the output is neither style.render(...) nor the plain segment text")
+            ctx.check(norm(v) == tn and d.get(sn) is not True, rb.fq, e[:160], where, "plain segment text appended as is (only when the segment has no style)", f"`{e[:120]}` appended to the output is neither {sn}.render({tn}, ...) nor the plain text of an unstyled segment")
+    # a styled segment is always rendered through its style
+    for d, e in emitting:
+        if d.get(sn) is True:
+            ctx.check(".render(" in e, rb.fq, e[:160], where, "styled segments go through style.render", "a segment with a style is written without rendering its style")
 
 
 def r3_3(ctx):
@@ -103,22 +160,24 @@ def r3_3(ctx):
     rb = ctx.repo.fn("console:Console._render_buffer")
     g = cfgmod.build(rb.node)
     rd = g.reaching_defs(weak=False)
-    loops = [n for n in g.stmt_nodes() if n.kind == "for" and isinstance(n.stmt.target, ast.Tuple) and len(n.stmt.target.elts) == 3]
-    if not loops:
-        raise AnchorVanished("_render_buffer: emit loop `for text, style, is_control in ...` not found")
-    L = loops[0]
-    var = norm(L.stmt.iter)
+    src, _names, _paths, anchor = _segment_paths(rb)
+    anchor_stmt = anchor
+    while not isinstance(anchor_stmt, ast.stmt):
+        anchor_stmt = rb.module.parent_of[anchor_stmt]
+    use_nodes = g.nodes_of(anchor_stmt)
+    var = norm(src)
     strips = [n for n in g.stmt_nodes() if n.kind == "stmt" and isinstance(n.stmt, ast.Assign) and norm(n.stmt.targets[0]) == var and "remove_color(" in norm(n.stmt.value)]
-    ok = bool(strips)
+    ok = bool(strips) and isinstance(src, ast.Name)
     if ok:
         s = strips[0]
         facts = g.branch_facts(s.id)
         cond_ok = any(v is True and "self.no_color" in norm(t) for t, v in facts)
-        reach = s.id in rd.get(L.id, {}).get(var, set())
+        reach = any(s.id in rd.get(u, {}).get(var, set()) for u in use_nodes)
         arg_ok = norm(s.stmt.value.args[0]) == var
         # every path entry->loop on which no_color and color_system hold passes the strip: the If has no else
         ifn = rb.module.parent_of.get(s.stmt)
-        simple = isinstance(ifn, ast.If) and not ifn.orelse and norm(ifn.test) in ("self.no_color and color_system", "color_system and self.no_color", "self.no_color")
+        from ..astutil import inline as _inl, single_defs as _sdf
+        simple = isinstance(ifn, ast.If) and not ifn.orelse and norm(_inl(ifn.test, _sdf(rb.node))) in ("self.no_color and self._color_system", "self._color_system and self.no_color", "self.no_color")
         ok = cond_ok and reach and arg_ok and simple
     ctx.check(ok, rb.fq, short(strips[0].stmt) if strips else "no remove_color", f"{rb.module.relpath}:{strips[0].lineno if strips else rb.node.lineno}",
               "colour is stripped from the very buffer the emit loop iterates, under `no_color and color_system`",
@@ -142,14 +201,19 @@ def r3_3(ctx):
                 if e.id in visiting:
                     return True  # coinductive: a cycle through the cache adds no new source of values
                 visiting.add(e.id)
-                vals = [x.value for x in walk_local(rc.node) if isinstance(x, ast.Assign) and len(x.targets) == 1 and norm(x.targets[0]) == e.id]
+                vals = [x.value for x in walk_local(rc.node) if isinstance(x, ast.Assign) and any(norm(t_) == e.id for t_ in x.targets)]
                 r = bool(vals) and all(stripped(v, depth + 1) for v in vals)
                 visiting.discard(e.id)
                 return r
+            lookup = None
             if isinstance(e, ast.Call) and isinstance(e.func, ast.Attribute) and e.func.attr == "get" and isinstance(e.func.value, ast.Name) and len(e.args) == 1 and isinstance(e.args[0], ast.Name) and e.args[0].id in loop_targets:
-                cache_name, key = e.func.value.id, e.args[0].id
-                stores = [x for x in walk_local(rc.node) if isinstance(x, ast.Assign) and isinstance(x.targets[0], ast.Subscript) and norm(x.targets[0].value) == cache_name]
-                return bool(stores) and all(norm(x.targets[0].slice) == key and stripped(x.value, depth + 1) for x in stores)
+                lookup = (e.func.value.id, e.args[0].id)
+            if isinstance(e, ast.Subscript) and isinstance(e.value, ast.Name) and isinstance(e.slice, ast.Name) and e.slice.id in loop_targets:
+                lookup = (e.value.id, e.slice.id)
+            if lookup is not None:
+                cache_name, key = lookup
+                stores = [(t_, x.value) for x in walk_local(rc.node) if isinstance(x, ast.Assign) for t_ in x.targets if isinstance(t_, ast.Subscript) and norm(t_.value) == cache_name]
+                return bool(stores) and all(norm(t_.slice) == key and stripped(v_, depth + 1) for t_, v_ in stores)
             return False
         ok = stripped(a1)
     # the only un-stripped yield passes style None and is under the falsy-style branch
@@ -173,13 +237,16 @@ def r3_3(ctx):
             par = mk.module.parent_of.get(st)
             guard = None
             cur = par
+            from ..astutil import inline as _inl, single_defs as _sdf
+            _sd = _sdf(mk.node)
+            child = c
             while cur is not None and cur is not mk.node:
-                if isinstance(cur, ast.If) and ("_color is not None" in norm(cur.test) or "_bgcolor is not None" in norm(cur.test)):
+                if isinstance(cur, ast.If) and any(child is b or child in list(ast.walk(b)) for b in cur.body) and ("_color is not None" in norm(_inl(cur.test, _sd)) or "_bgcolor is not None" in norm(_inl(cur.test, _sd))):
                     guard = cur
                 cur = mk.module.parent_of.get(cur)
-            recv = norm(c.func)
+            recv = norm(_inl(c.func, _sd))
             which = "_bgcolor" if "_bgcolor" in recv else "_color"
-            ok = guard is not None and f"self.{which} is not None" in norm(guard.test)
+            ok = guard is not None and f"self.{which} is not None" in norm(_inl(guard.test, _sd))
             fg = kwarg(c, "foreground")
             ok_fg = (which == "_color" and fg is None) or (which == "_bgcolor" and fg is not None and norm(fg) == "False")
             ctx.check(ok and ok_fg, mk.fq, short(c), f"{mk.module.relpath}:{c.lineno}", f"{which} codes emitted only when set, as {'background' if which == '_bgcolor' else 'foreground'}",
@@ -191,34 +258,20 @@ def r3_3(ctx):
 def r3_4(ctx):
     ctx.rule("R3.4", "no control codes on a non-terminal: in the emit loop of Console._render_buffer every append of a segment's text (styled or not) is dominated by `not (not_terminal and is_control)`")
     rb = ctx.repo.fn("console:Console._render_buffer")
-    g = cfgmod.build(rb.node)
-    aliases = alias_map(rb.node)
-    nt_ok = any(isinstance(n, ast.Assign) and norm(n.targets[0]) == "not_terminal" and norm(n.value) == "not self.is_terminal" for n in walk_local(rb.node))
-    ctx.check(nt_ok, rb.fq, "not_terminal = not self.is_terminal", rb.where, "not_terminal reflects the console's is_terminal", "not_terminal is no longer `not self.is_terminal`")
+    from ..yieldpaths import consistent
+    _src, (tn, sn, cn), paths, anchor = _segment_paths(rb)
+    where = f"{rb.module.relpath}:{anchor.lineno}"
     n = 0
-    for nd in g.stmt_nodes():
-        if nd.kind != "stmt":
-            continue
-        calls = [c for c in ast.walk(nd.stmt) if isinstance(c, ast.Call) and norm(expand_alias(c.func, aliases)) == "output.append"]
-        if not calls:
+    for d, e in paths:
+        if e is None:
             continue
         n += 1
-        facts = g.branch_facts(nd.id)
-        ok = False
-        for t, v in facts:
-            tt = norm(t)
-            if v is False and tt in ("not_terminal and is_control", "is_control and not_terminal"):
-                ok = True
-            if v is True and tt in ("not (not_terminal and is_control)", "not (is_control and not_terminal)", "not is_control or not not_terminal", "not not_terminal or not is_control"):
-                ok = True
-        # conjunct inside an and-test
-        for t, v in facts:
-            if v is True and isinstance(t, ast.BoolOp) and isinstance(t.op, ast.And):
-                if any(norm(x) in ("not (not_terminal and is_control)", "not is_control") for x in t.values):
-                    ok = True
-        ctx.check(ok, rb.fq, short(nd.stmt), f"{rb.module.relpath}:{nd.lineno}", "append guarded against control segments on a non-terminal",
-                  "this branch appends segment text without checking `not (not_terminal and is_control)`: control codes of such segments are written to a file/pipe")
-    ctx.floor(n, 2, "appends in the emit loop")
+        # is this emitting path possible for a control segment on a non-terminal?
+        p = tuple(("cond", k, v) for k, v in d.items())
+        possible = consistent(p, {"self.is_terminal": False, cn: True})
+        ctx.check(not possible, rb.fq, f"{ {k: v for k, v in d.items()} } -> {e[:80]}", where, "this output piece cannot be produced for a control segment on a non-terminal",
+                  f"the piece `{e[:100]}` is written under {d}, which does not exclude `not is_terminal and {cn}`: control codes of such segments are written to a file/pipe")
+    ctx.floor(n, 2, "output pieces in the emit loop")
 
 
 def r3_5(ctx):
